@@ -16,11 +16,12 @@ PROPS = {
     },
     "C11": {
         "level": "exploration",
-        "rule": "PacketWindowFilter answers compared step by step with an explicit set model (accepted-set, highest, window 8128, limit): ALL histories of length 3 over a 37-value boundary alphabet for 3 limits and ALL histories of length 5 over a 16-value sub-alphabet (exhaustive sub-spaces), plus seeded random walks of 10^4 ids (4 styles); plus scripted reply-id histories through the real client DatagramPacketCodec (decode + filter); non-trivial = every history (each compares >= 3 decisions); distinct = distinct histories",
+        "rule": "PacketWindowFilter answers compared step by step with an explicit set model (accepted-set, highest, window 8128, limit): ALL histories of length 3 over a 37-value boundary alphabet for 3 limits and ALL histories of length 5 over a 16-value sub-alphabet (exhaustive sub-spaces), plus seeded random walks of 10^4 ids (4 styles); plus scripted reply-id histories through the real client DatagramPacketCodec (decode + filter); node level: a reference client sends scripted id histories of one session (duplicates, reordering within the window, jumps across the window edge, ids near 2^64) to a real server, the echo target's log is compared with the same model and five fresh ids must still arrive afterwards; non-trivial = every history (each compares >= 3 decisions); distinct = distinct histories",
         "exhaustive_note": "exhaustive for the enumerated short-history sub-spaces only (see rule); random walks and codec histories are samples",
         "assumptions": ["the set model in harness/osv/src/checks/c11.rs is the specification of the property statement", "reference-made reply datagrams (refimpl) for the client-codec part"],
         "plan": [
             {"name": "filter-model", "check": "c11"},
+            {"name": "history-nodes", "check": "c11", "bin": "osv-e2e", "timeout": {"quick": 900, "thorough": 2400}},
         ],
     },
 }
@@ -45,10 +46,13 @@ PROPS["C05"] = {
 
 PROPS["C06"] = {
     "level": "exploration",
-    "rule": "per seeded deployment (every protocol/cipher x user table of 0/1/3 users): random byte strings of EVERY length 0..300 (+ long ones), valid reference handshakes under wrong credentials (random key, EVERY single-bit flip of the PSK / UUID, every 3rd bit of iPSK and uPSK, password variants, unregistered user with right iPSK, right user with wrong iPSK, iPSK used as user key, uPSK without identity header), valid handshakes of every other protocol, EVERY proper prefix of a valid handshake followed by silence and by random bytes, VMess valid auth-id with foreign header key; oracle: the real server decoder never yields an item; plus for every registered user: request accepted, attributed to that user, answered under that user's key and under no other key (TCP and UDP); evaluations = inputs presented; distinct = deployments",
+    "rule": "per seeded deployment (every protocol/cipher x user table of 0/1/3 users): random byte strings of EVERY length 0..300 (+ long ones), valid reference handshakes under wrong credentials (random key, EVERY single-bit flip of the PSK / UUID, every 3rd bit of iPSK and uPSK, password variants, unregistered user with right iPSK, right user with wrong iPSK, iPSK used as user key, uPSK without identity header), valid handshakes of every other protocol, EVERY proper prefix of a valid handshake followed by silence and by random bytes, VMess valid auth-id with foreign header key; oracle: the real server decoder never yields an item; plus for every registered user: request accepted, attributed to that user, answered under that user's key and under no other key (TCP and UDP); node level: a real server used by a real client with the configured credential (control) and by real clients with near-miss credentials (another / one-character-longer / shorter password, another or one-bit-off key, UUID, user key; unregistered user key behind the right server key; server key without a user key): 4 TCP flows and 4 datagrams each, the canary targets must never be contacted; evaluations = inputs presented + flows and datagrams attempted; distinct = deployments",
     "exhaustive_note": "all lengths 0..300 of random input, all key-bit positions, all handshake prefixes are enumerated per deployment",
     "assumptions": TB + ["'no item yielded by the server-side decoder' is the codec-level form of 'never dials / never forwards'; the running-node form is part of C08/C01 canaries"],
-    "plan": [{"name": "credential", "check": "c06"}],
+    "plan": [
+        {"name": "credential", "check": "c06"},
+        {"name": "credential-nodes", "check": "c06", "bin": "osv-e2e", "timeout": {"quick": 900, "thorough": 2400}},
+    ],
 }
 
 PROPS["C07"] = {
@@ -76,10 +80,13 @@ PROPS["C09"] = {
 
 PROPS["C10"] = {
     "level": "exploration",
-    "rule": "the complete boundary grid: timestamp offsets {-2^31,-3600,-121,-120,-119,-61,-31,-30,-29,-1,0,1,29,30,31,61,119,120,121,3600,2^31} (+ ts=0, ts=u64::MAX) x all 256 type bytes x request-salt echoes {own, every single-bit flip, another flow's, zero} x all 256 VMess response authentication bytes, for every SIP022 cipher (TCP and UDP, both directions, with and without user table) and both VMess securities; replays: sequential with the hooked clock advanced by 0/1/29/30/31/59/60 s, during an incomplete original, concurrent on 2/4/8/16 threads (200 / 3000 barrier contests); thorough adds 31 s of real time and 102401 interposed handshakes; each decision of the real decoder is compared with the rule evaluated from the fields the harness put in and the pinned clock; evaluations = decisions compared; distinct = distinct (check, protocol, case)",
+    "rule": "the complete boundary grid: timestamp offsets {-2^31,-3600,-121,-120,-119,-61,-31,-30,-29,-1,0,1,29,30,31,61,119,120,121,3600,2^31} (+ ts=0, ts=u64::MAX) x all 256 type bytes x request-salt echoes {own, every single-bit flip, another flow's, zero} x all 256 VMess response authentication bytes, for every SIP022 cipher (TCP and UDP, both directions, with and without user table) and both VMess securities; replays: sequential with the hooked clock advanced by 0/1/29/30/31/59/60 s, during an incomplete original, concurrent on 2/4/8/16 threads (200 / 3000 barrier contests); thorough adds 31 s of real time and 102401 interposed handshakes; node level: a forwarder tapes what a real client sends to a real Shadowsocks 2022 server (tcp and ws), each tape is played back while its flow still runs, once afterwards, as four simultaneous copies, and truncated-then-whole - the target (flow tokens inside the relayed payload) must never be dialled twice for one flow and a fresh flow must still work; each decision of the real decoder is compared with the rule evaluated from the fields the harness put in and the pinned clock; evaluations = decisions compared; distinct = distinct (check, protocol, case)",
     "exhaustive_note": "the boundary grid is finite and enumerated completely; concurrency contests are samples",
     "assumptions": TB + ["the clock is pinned through the verif clock hook (aead_2022::now, vmess::now); the salt cache expires by Instant, which only the two real-time cases of the thorough tier exercise"],
-    "plan": [{"name": "boundary-grid", "check": "c10"}],
+    "plan": [
+        {"name": "boundary-grid", "check": "c10"},
+        {"name": "replay-nodes", "check": "c10", "bin": "osv-e2e", "timeout": {"quick": 900, "thorough": 2400}},
+    ],
 }
 
 PROPS["C12"] = {
